@@ -19,6 +19,7 @@ const (
 	SStringShort
 	SIntStruct
 	SStringsShort
+	SVersion // app.Version(names, version): declares a flag-like option too
 )
 
 // Decl18 is one declaration call.
@@ -89,6 +90,9 @@ func declare18(app *cli.Cli, d Decl18) probe18 {
 		}
 	}
 	switch d.Style {
+	case SVersion:
+		app.Version(d.Name, "1.2.3")
+		return probe18{true, func() string { return "" }, ""}
 	case SBoolStruct:
 		p := app.Bool(cli.BoolOpt{Name: d.Name, Value: false})
 		return probe18{true, func() string { return fmt.Sprint(*p) }, "false"}
@@ -169,8 +173,8 @@ func CheckC18(c *DeclCase, st *Stats) *Violation {
 		}
 	}
 	for di, d := range c.Decls {
-		if d.IsArg {
-			continue
+		if d.IsArg || d.Style == SVersion {
+			continue // a version flag given first prints the version instead of setting a variable (C14)
 		}
 		for _, n := range strings.Fields(d.Name) {
 			dn := "--" + n
